@@ -691,6 +691,44 @@ def reader_seeds(ctx):
         finally:
             idx.close()
 
+    # the same pack behind a multi-pack-index (written by git for exactly this pack): a damaged, stale or crafted midx may
+    # make lookups fail, never hand out another object's bytes under a name
+    cgit.git(["multi-pack-index", "write"], cwd=repo)
+    midx_bytes = open(os.path.join(pd, "multi-pack-index"), "rb").read()
+
+    def read_midx_through_store(dirp):
+        from dulwich.object_store import DiskObjectStore
+
+        od = os.path.join(dirp, "objects")
+        os.makedirs(os.path.join(od, "pack"))
+        os.makedirs(os.path.join(od, "info"))
+        for ext in (".pack", ".idx"):
+            shutil.copyfile(os.path.join(dirp, "p" + ext), os.path.join(od, "pack", pname + ext))
+        shutil.copyfile(os.path.join(dirp, "multi-pack-index"), os.path.join(od, "pack", "multi-pack-index"))
+        store = DiskObjectStore(od)
+        try:
+            import struct
+
+            nobj = struct.unpack(">L", idx2[8 + 255 * 4: 8 + 256 * 4])[0]  # idx v2: 8-byte header, 256-entry fan-out, names
+            names = [idx2[1032 + 20 * i: 1052 + 20 * i] for i in range(nobj)]
+            for raw_name in names:
+                sha = raw_name.hex().encode()
+                for getter in ("item", "raw"):
+                    try:
+                        if getter == "item":
+                            o = store[sha]
+                            tname, raw = o.type_name, o.as_raw_string()
+                        else:
+                            tnum, raw = store.get_raw(sha)
+                            tname = {1: b"commit", 2: b"tree", 3: b"blob", 4: b"tag"}[tnum]
+                    except Exception:
+                        continue  # refusing is fine
+                    if packfmt.obj_id(tname, raw).hex().encode() != sha:
+                        raise Inconsistent(f"store.{'__getitem__' if getter == 'item' else 'get_raw'}({sha!r}) returns a {tname!r} that does not hash to that name")
+        finally:
+            store.close()
+
+    out["store(midx damaged)"] = ({"p.pack": pack_bytes, "p.idx": idx2, "multi-pack-index": midx_bytes}, "multi-pack-index", read_midx_through_store)
     out["pack(data damaged)"] = ({"p.pack": pack_bytes, "p.idx": idx2}, "p.pack", read_pack)
     out["pack(idx v2 damaged)"] = ({"p.pack": pack_bytes, "p.idx": idx2}, "p.idx", read_pack)
     out["store(idx v2 damaged)"] = ({"p.pack": pack_bytes, "p.idx": idx2}, "p.idx", read_pack_through_store)
@@ -851,6 +889,25 @@ def judge_reader(ctx, work, rname, files, target, reader, mname, mutated, limit,
     return outcome
 
 
+def midx_crafted(data):
+    """Well-formed multi-pack-index files (trailer recomputed) whose object-offset entries are exchanged pairwise: what a
+    stale file after a same-name pack rewrite, or a hostile one, looks like."""
+    import struct
+
+    nchunks = data[6]
+    table = [(data[12 + 12 * i: 16 + 12 * i], struct.unpack(">Q", data[16 + 12 * i: 24 + 12 * i])[0]) for i in range(nchunks + 1)]
+    pos = {cid: (off, table[i + 1][1]) for i, (cid, off) in enumerate(table[:-1])}
+    if b"OOFF" not in pos:
+        raise HarnessError("multi-pack-index seed has no OOFF chunk")
+    a, b = pos[b"OOFF"]
+    n = (b - a) // 8
+    for i in range(n):
+        for j in range(i + 1, n):
+            d = bytearray(data[:-20])
+            d[a + 8 * i: a + 8 * i + 8], d[a + 8 * j: a + 8 * j + 8] = data[a + 8 * j: a + 8 * j + 8], data[a + 8 * i: a + 8 * i + 8]
+            yield f"swap-ooff@{i},{j}", bytes(d) + hashlib.sha1(bytes(d)).digest()
+
+
 def _part_reader(ctx, item):
     rname, nshards, shard = item
     files, target, reader = reader_seeds(ctx)[rname]
@@ -872,6 +929,8 @@ def _part_reader(ctx, item):
             continue
         if k % nshards == shard:
             muts.append((name, d2))
+    if rname == "store(midx damaged)":
+        muts += [m for k, m in enumerate(midx_crafted(data)) if k % nshards == shard]
     cases = [("reader", rname, name, d2) for name, d2 in muts]
 
     def fn(sub, c):
